@@ -2504,6 +2504,20 @@ class Processor:
                         yield node_coord
                     continue
 
+                if (next_coord.node is None
+                    and len(segments) > depth + 1
+                    and segment_type in (
+                        PathSegmentTypes.KEY, PathSegmentTypes.INDEX)
+                    and isinstance(next_coord.parent, (dict, list))
+                ):
+                    # A null cannot hold the rest of the path; it becomes
+                    # whatever the next segment needs to exist within
+                    next_coord.node = Nodes.build_next_node(
+                        yaml_path, depth + 1, value)
+                    next_coord.parent[next_coord.parentref] = next_coord.node
+                    for referer in getattr(next_coord.parent, "_ref", []):
+                        referer.update_key_value(next_coord.parentref)
+
                 if next_coord.node is None:
                     self.logger.debug((
                         "Relaying a None element <{}>{} from the data."
